@@ -393,6 +393,31 @@ func genC10(g *Gen, tier string, w *bufio.Writer) {
 			fmt.Fprintf(w, "inter %s %s\n", EncodeType(a), EncodeType(b))
 		}
 	}
+	// 3b. reachable types: folds of TypeSum over random well-formed types and types reported by Value.Type()
+	//     (exactly the types the engine itself can build); all laws, least upper bound against a third one
+	nr := 1500
+	if thorough {
+		nr = 40000
+	}
+	reach := func() octosql.Type {
+		if g.Chance(1, 4) {
+			return RandValue(g, 1+g.Intn(3)).Type()
+		}
+		t := RandWFType(g, 1+g.Intn(3))
+		for k := g.Intn(3); k > 0; k-- {
+			t = octosql.TypeSum(t, RandWFType(g, 1+g.Intn(3)))
+		}
+		return t
+	}
+	for i := 0; i < nr; i++ {
+		a, b, c := reach(), reach(), reach()
+		fmt.Fprintf(w, "laws %s %s\n", EncodeType(a), EncodeType(b))
+		fmt.Fprintf(w, "lub %s %s %s\n", EncodeType(a), EncodeType(b), EncodeType(octosql.TypeSum(octosql.TypeSum(b, c), a)))
+		fmt.Fprintf(w, "trans %s %s %s\n", EncodeType(a), EncodeType(octosql.TypeSum(a, b)), EncodeType(octosql.TypeSum(octosql.TypeSum(a, b), c)))
+		if v, ok := Inhabit(g, a, 2); ok {
+			fmt.Fprintf(w, "sound %s %s %s\n", EncodeType(a), EncodeType(octosql.TypeSum(a, b)), EncodeValue(v))
+		}
+	}
 	// 4. Value.Type: every value of the C09 edge universe, values inhabiting universe types, random deep values
 	for _, v := range smallUniverse() {
 		fmt.Fprintf(w, "typeof %s\n", EncodeValue(v))
